@@ -139,6 +139,61 @@ theorem C19_centertype_relabel (mol : ℤ → Option ℤ) (f : FrameSpec K) (hwf
   · simpa [Lammps.Spec.atId, hby] using ht
   · rw [ht]; rfl
 
+/-! ## the column readers -/
+
+/-- **Column reader.**  For every trajectory of orthogonal frames and EVERY non-empty list of 1-based column ids that
+name numeric columns of the atom lines, `read_lammps_vector_wrapper` returns one snapshot per frame whose `positions[k]`
+is the list of the requested columns (in the requested order, repetitions allowed) of the atom line with id `k+1`,
+whatever the order of the lines; types by id, timestep, count and box as in the file. -/
+theorem C19_vector_columns (pr : K → Tok K) (hpr : ∀ x, Impl.toFloat (pr x) = .ok x) (cols : List ℤ) (hne : cols ≠ [])
+    (nd : ℕ) (hnd : nd = 2 ∨ nd = 3) (fs : List (FrameSpec K))
+    (hwf : ∀ f ∈ fs, Lammps.Spec.WF f ∧ f.tric = false ∧ ∀ a ∈ f.atoms, ∀ c ∈ cols, (Spec.column nd a c).isSome) :
+    Impl.readVectorAll nd cols (Lammps.Spec.emit pr nd fs) = .ok (fs.map (Spec.vector nd cols)) := by
+  unfold Impl.readVectorAll
+  have : cols.isEmpty = false := by cases cols <;> simp_all
+  simp only [this, Bool.false_eq_true, if_false]
+  exact loopFuel_emit pr nd _ _
+    (fun f => Lammps.Spec.WF f ∧ f.tric = false ∧ ∀ a ∈ f.atoms, ∀ c ∈ cols, (Spec.column nd a c).isSome)
+    (fun f rest h => readVector_emitFrame pr hpr f h.1 rest cols nd hnd h.2.1 h.2.2) rfl fs hwf _ (Nat.lt_succ_self _)
+
+/-- what a 1-based column id means on the line `id type c_0 … c_{nd-1} extras…`: 1 ↦ id, 2 ↦ type, 3+i ↦ coordinate i,
+nd+3+j ↦ the j-th extra column (if numeric); ids ≤ 0 name nothing -/
+theorem C19_column_meaning (nd : ℕ) (a : AtomSpec K) :
+    Spec.column nd a 1 = some (a.id : K) ∧ Spec.column nd a 2 = some (a.type : K) ∧
+    (∀ i, i < nd → Spec.column nd a ((i : ℤ) + 3) = some (a.c i)) ∧
+    (∀ j : ℕ, Spec.column nd a ((nd : ℤ) + 3 + (j : ℤ)) = (a.extras[j]?).bind Spec.tokVal) ∧
+    (∀ c : ℤ, c ≤ 0 → Spec.column nd a c = none) := by
+  refine ⟨by simp [Spec.column, Spec.atomVals], by simp [Spec.column, Spec.atomVals], ?_, ?_, ?_⟩
+  · intro i hi
+    have h1 : (1 : ℤ) ≤ (i : ℤ) + 3 := by omega
+    have h2 : ((i : ℤ) + 3 - 1).toNat = i + 2 := by omega
+    simp only [Spec.column, h1, if_true, h2, Spec.atomVals]
+    rw [List.append_assoc, List.getElem?_append_right (by simp)]
+    simp [hi, List.getElem?_append_left]
+  · intro j
+    have h1 : (1 : ℤ) ≤ (nd : ℤ) + 3 + (j : ℤ) := by omega
+    have h2 : ((nd : ℤ) + 3 + (j : ℤ) - 1).toNat = (2 + nd) + j := by omega
+    simp only [Spec.column, h1, if_true, h2, Spec.atomVals]
+    rw [List.getElem?_append_right (by simp; omega)]
+    have h3 : 2 + nd + j - ([some (a.id : K), some (a.type : K)] ++ List.map (fun i => some (a.c i)) (List.range nd)).length = j := by
+      simp; omega
+    rw [h3, List.getElem?_map]
+    cases a.extras[j]? <;> simp
+  · intro c hc
+    have : ¬ (1 : ℤ) ≤ c := by omega
+    simp [Spec.column, this]
+
+/-- **`read_additions`.**  For every dump file with at least one frame whose frames all have `N` atoms, and every
+0-based column `ncol` that is numeric on every atom line, row `n` of the result holds, at index `k`, column `ncol` of the
+atom line with id `k+1` of frame `n` — for every frame. -/
+theorem C19_additions (pr : K → Tok K) (hpr : ∀ x, Impl.toFloat (pr x) = .ok x) (nd N ncol : ℕ)
+    (f0 : FrameSpec K) (more : List (FrameSpec K))
+    (hwf : ∀ f ∈ f0 :: more, Lammps.Spec.WF f ∧ f.atoms.length = N ∧
+      ∀ a ∈ f.atoms, (Spec.column nd a ((ncol : ℤ) + 1)).isSome) :
+    Impl.readAdditions (ncol : ℤ) (Lammps.Spec.emit pr nd (f0 :: more))
+      = .ok (Spec.additions nd ncol N (f0 :: more)) :=
+  readAdditions_emit pr hpr nd N ncol f0 more hwf
+
 /-! ## HOOMD frames -/
 
 /-- **GSD conversion.**  Every frame sequence whose first frame has the requested dimension is converted frame by
